@@ -18,9 +18,15 @@ from hypergraph.exceptions import InfiniteLoopError, MissingInputError  # noqa: 
 def canon_error(e: BaseException | None, env: Env | None = None) -> Any:
     if e is None:
         return None
+    if env is not None and not isinstance(e, UserErr):
+        for tag, obj in env.errs.items():
+            if obj is e:
+                return "user:" + tag      # a builtin exception object raised by a node body (an ordinary bug in it), surfaced as itself
     if isinstance(e, UserErr):
         if env is not None and env.errs.get(e.tag) is not e:
             return "user-copy:" + e.tag  # not the very object the node raised
+        if env is not None and e.tag in env.causes and e.__cause__ is not env.causes[e.tag]:
+            return "user-lost-cause:" + e.tag  # the very object, but stripped of the cause its node gave it (`raise ... from low`)
         return "user:" + e.tag
     if isinstance(e, InfiniteLoopError):
         return "InfiniteLoopError"
@@ -226,6 +232,8 @@ def run_case(
         kwargs["error_handling"] = cfg["errMode"]
     if "maxIter" in cfg:
         kwargs["max_iterations"] = cfg["maxIter"]
+    if "onInternal" in cfg:
+        kwargs["on_internal_override"] = cfg["onInternal"]      # the policy for caller-supplied values of names the graph produces itself
     if entrypoint is not None:
         kwargs["entrypoint"] = entrypoint
     rec = _recorder(record_events, yielding_recorder, runner)
